@@ -135,6 +135,18 @@ Definition om_state : rib :=
   addv idord r5 1 (mk_op 6 1 ADD None (ETop T4 10 true (Some (mk_top 5 0 [])))).
 Definition om_op : rop := mk_op 7 1 ADD None (EGrp 5 (Some (mk_grp [(7, 1)] 0 []))).
 
+(* held, newest first: ADD 11->g5 (id 8), explicit REPLACE 10->g5 whose key was deleted (id 4),
+   ADD 10->g5 (id 6) *)
+Definition fa_state : rib :=
+  let r0 := rib0 1 false in
+  let r1 := addv idord r0 1 (mk_op 1 1 ADD None (ENh 7 (Some (mk_nh [])))) in
+  let r2 := addv idord r1 1 (mk_op 2 1 ADD None (EGrp 6 (Some (mk_grp [(7, 1)] 0 [])))) in
+  let r3 := addv idord r2 1 (mk_op 3 1 ADD None (ETop T4 10 true (Some (mk_top 6 0 [])))) in
+  let r4 := addv idord r3 1 (mk_op 6 1 ADD None (ETop T4 10 true (Some (mk_top 5 0 [])))) in
+  let r5 := addv idord r4 1 (mk_op 4 1 REPLACE None (ETop T4 10 true (Some (mk_top 5 0 [])))) in
+  let r6 := fst (delete_entry v_fixed r5 1 (mk_op 5 1 DELETE None (ETop T4 10 true None))) in
+  addv idord r6 1 (mk_op 8 1 ADD None (ETop T4 11 true (Some (mk_top 5 0 [])))).
+
 (* IPv4 entry, its group and its next-hop arrive in reverse order *)
 Definition ex_r1 : rib := addv idord (rib0 1 false) 1 (mk_op 1 1 ADD None (ETop T4 100 true (Some (mk_top 5 0 [])))).
 Definition ex_r2 : rib := addv idord ex_r1 1 (mk_op 2 1 ADD None (EGrp 5 (Some (mk_grp [(7, 1)] 0 [])))).
@@ -505,6 +517,13 @@ Proof.
   - destruct (L n) as (_ & H & _). apply forallb_impl. intros x _. apply H.
 Qed.
 
+Lemma existsb_eqb_in x l : existsb (N.eqb x) l = true <-> In x l.
+Proof.
+  rewrite existsb_exists. split.
+  - intros (y & Hy & E). apply N.eqb_eq in E. subst. exact Hy.
+  - intros H. exists x. split; auto. apply N.eqb_refl.
+Qed.
+
 (* ---- a generic induction principle for the cascade ---- *)
 Section AeiRel.
   Variable v : variant.
@@ -513,13 +532,14 @@ Section AeiRel.
   Hypothesis R_refl : forall st, R st st.
   Hypothesis R_trans : forall a b c, R a b -> R b c -> R a c.
   Hypothesis R_nofuel : forall r acc stk, R (r, acc, stk) (r, set_nofuel acc, stk).
-  Hypothesis R_err : forall r acc stk n o, try_install v r n o = Err ->
-    R (r, acc, stk) ((if fixF5 v then set_pend (ndel (op_id o) (pend r)) r else r), add_fail (op_id o) acc, stk).
-  Hypothesis R_fail : forall r acc stk n o, try_install v r n o = NotYet -> nofwd r = true ->
+  Hypothesis R_err : forall r acc stk n o, ~ In (op_id o) stk -> try_install v r n o = Err ->
+    R (r, acc, stk) ((if fixF5 v then set_pend (ndel (op_id o) (pend r)) r else r), add_fail (op_id o) acc,
+                     if fixF5 v then op_id o :: stk else stk).
+  Hypothesis R_fail : forall r acc stk n o, ~ In (op_id o) stk -> try_install v r n o = NotYet -> nofwd r = true ->
     R (r, acc, stk) (r, add_fail (op_id o) acc, stk).
-  Hypothesis R_hold : forall r acc stk n o, try_install v r n o = NotYet -> nofwd r = false ->
+  Hypothesis R_hold : forall r acc stk n o, ~ In (op_id o) stk -> try_install v r n o = NotYet -> nofwd r = false ->
     R (r, acc, stk) (set_pend (nset (op_id o) (n, o) (pend r)) r, acc, stk).
-  Hypothesis R_inst : forall r acc stk n o r' h rv, try_install v r n o = Installed r' h rv ->
+  Hypothesis R_inst : forall r acc stk n o r' h rv, ~ In (op_id o) stk -> try_install v r n o = Installed r' h rv ->
     R (r, acc, stk) (set_pend (ndel (op_id o) (pend r')) r', add_rev rv (add_hev h (add_ok n o acc)), op_id o :: stk).
 
   Lemma fold_rel (g : rib * out * list N -> N * (ni * rop) -> rib * out * list N) :
@@ -533,10 +553,11 @@ Section AeiRel.
   Proof.
     induction F as [|f IH]; intros [[r acc] stk] n o; cbn [aei].
     - apply R_nofuel.
-    - destruct (existsb _ stk); [apply R_refl|].
+    - destruct (existsb _ stk) eqn:Ex; [apply R_refl|].
+      assert (Hns : ~ In (op_id o) stk) by (intros Hi; apply existsb_eqb_in in Hi; congruence).
       destruct (try_install v r n o) as [| |r' h rv] eqn:E.
-      + apply (R_err r acc stk n o E).
-      + destruct (nofwd r) eqn:En; [apply (R_fail r acc stk n o E En)|apply (R_hold r acc stk n o E En)].
+      + apply (R_err r acc stk n o Hns E).
+      + destruct (nofwd r) eqn:En; [apply (R_fail r acc stk n o Hns E En)|apply (R_hold r acc stk n o Hns E En)].
       + eapply R_trans; [eapply R_inst; eauto|].
         apply fold_rel. intros st e. apply IH.
   Qed.
@@ -641,19 +662,19 @@ Proof.
   - apply Rall_refl.
   - apply Rall_trans.
   - intros r acc stk. apply Rall_quiet; auto.
-  - intros r acc stk n0 o0 E. destruct (fixF5 v); apply Rall_quiet; auto.
+  - intros r acc stk n0 o0 _ E. destruct (fixF5 v); apply Rall_quiet; auto.
     + apply PK_ndel.
     + intros H Hn. cbn [pend set_pend]. rewrite (H Hn). reflexivity.
     + apply held_ok_sub; auto. intros id n1 o1 Hb. cbn [pend set_pend] in Hb.
       apply nget_ndel_some in Hb. tauto.
-  - intros r acc stk n0 o0 E En. apply Rall_quiet; auto.
-  - intros r acc stk n0 o0 E En. apply Rall_quiet; auto.
+  - intros r acc stk n0 o0 _ E En. apply Rall_quiet; auto.
+  - intros r acc stk n0 o0 _ E En. apply Rall_quiet; auto.
     + apply PK_nset.
     + intros _ Hn. cbn [nofwd set_pend] in Hn. congruence.
     + apply held_ok_sub; auto. intros id n1 o1 Hb. cbn [pend set_pend] in Hb.
       rewrite nget_nset in Hb. destruct (op_id o0 =? id); [|auto].
       inversion Hb; subst. right. rewrite (classify_spec v), E. reflexivity.
-  - intros r acc stk n0 o0 r' h rv E.
+  - intros r acc stk n0 o0 r' h rv _ E.
     pose proof (ack_only_resolvable _ _ _ _ _ _ _ E) as Hres.
     apply try_install_effect in E. destruct E as [Hn He].
     destruct (inst_eff_le _ _ _ _ Hn He) as (L & Hp & Hf).
@@ -963,12 +984,6 @@ Proof.
   - intros Hi. apply H. apply (installable_iff v). exact Hi.
 Qed.
 
-Lemma existsb_eqb_in x l : existsb (N.eqb x) l = true <-> In x l.
-Proof.
-  rewrite existsb_exists. split.
-  - intros (y & Hy & E). apply N.eqb_eq in E. subst. exact Hy.
-  - intros H. exists x. split; auto. apply N.eqb_refl.
-Qed.
 
 Section Held.
   (* P: what is known of a held operation after it has been retried; it depends on the tables
@@ -1055,9 +1070,11 @@ Section Complete.
     assert (Hns : ~ In (op_id o) stk).
     { intros Hi. apply existsb_eqb_in in Hi. congruence. }
     destruct (try_install v r n o) as [| |r1 h rv] eqn:Et.
-    - rewrite Hv in E. inversion E; subst. split; [|split; [lia|split; [auto|]]].
+    - rewrite Hv in E. inversion E; subst. split; [|split; [cbn [length]; lia|split; [auto|]]].
       + split; [apply PK_ndel; auto|]. split; [intros Hn; cbn [pend set_pend]; rewrite (HNF Hn); reflexivity|].
-        split; [auto|]. split; [auto|]. intros id x Hi. cbn [pend set_pend] in Hi. apply in_ndel in Hi. apply HB with x. tauto.
+        split; [constructor; auto|]. split; [intros x [<-|Hx]; auto|].
+        intros id x Hi. cbn [pend set_pend] in Hi. apply in_ndel in Hi. cbn [fst] in Hi. destruct Hi as [Hi Hne].
+        destruct (HB _ _ Hi) as [B1 B2]. split; [exact B1|]. intros [Hx|Hx]; [congruence|tauto].
       + left. split; [reflexivity|]. intros id n1 o1 B. cbn [pend set_pend] in B. apply nget_ndel_some in B. right. exact B.
     - destruct (nofwd r) eqn:En.
       + inversion E; subst. split; [repeat split; auto; apply HB with x; auto|]. split; [lia|]. split; [auto|].
@@ -1566,4 +1583,133 @@ Proof.
   split; [exact idord_perm|]. split; [exact revord_perm|]. split.
   - unfold om_state, addv. repeat (eapply reach_step; [|first [apply SAdd; exact idord_perm|apply SDel]]). apply reach_refl.
   - destruct order_matters as (_ & -> & -> & _). discriminate.
+Qed.
+
+(* ---- each operation is answered at most once per AddEntry; answered operations are not held ---- *)
+Lemma NoDup_snoc {A} (l : list A) x : NoDup l -> ~ In x l -> NoDup (l ++ [x]).
+Proof.
+  intros H Hx. apply (Permutation_NoDup (Permutation_cons_append l x)). constructor; auto.
+Qed.
+Lemma NoDup_mid {A} (a b : list A) x : NoDup (a ++ b) -> ~ In x (a ++ b) -> NoDup ((a ++ [x]) ++ b).
+Proof.
+  intros H Hx. rewrite <- app_assoc. cbn [app].
+  apply (Permutation_NoDup (Permutation_middle a b x)). constructor; auto.
+Qed.
+Lemma NoDup_app_l {A} (a b : list A) : NoDup (a ++ b) -> NoDup a.
+Proof. induction a as [|y a IH]; cbn; intros H; [constructor|]. inversion H; subst. constructor; [intros Hi; apply H2, in_or_app; auto|auto]. Qed.
+Lemma NoDup_app_r {A} (a b : list A) : NoDup (a ++ b) -> NoDup b.
+Proof. induction a as [|y a IH]; cbn; intros H; [exact H|]. inversion H; subst. auto. Qed.
+Lemma NoDup_app_disjoint {A} (a b : list A) x : NoDup (a ++ b) -> In x a -> ~ In x b.
+Proof.
+  induction a as [|y a IH]; cbn; [tauto|]. intros H [->|Hi] Hb.
+  - inversion H; subst. apply H2. apply in_or_app. right. exact Hb.
+  - inversion H; subst. eapply IH; eauto.
+Qed.
+
+(* results so far are distinct and all on the install stack *)
+Definition Kst (st : rib * out * list N) : Prop :=
+  NoDup (oks (snd (fst st)) ++ fails (snd (fst st)))
+  /\ forall id, In id (oks (snd (fst st)) ++ fails (snd (fst st))) -> In id (snd st).
+
+Lemma aei_K v ord : fixF5 v = true -> forall F st n o,
+  nofwd (fst (fst st)) = false -> Kst st ->
+  Kst (aei v ord F st n o) /\ nofwd (fst (fst (aei v ord F st n o))) = false.
+Proof.
+  intros Hv F st n o.
+  apply (aei_rel v ord (fun a b => nofwd (fst (fst a)) = false -> Kst a -> Kst b /\ nofwd (fst (fst b)) = false)).
+  - auto.
+  - intros a b c H1 H2 Hf K. destruct (H1 Hf K) as [K1 F1]. apply H2; auto.
+  - intros r acc stk Hf K. split; [exact K|exact Hf].
+  - intros r acc stk n0 o0 Hns E Hf [K1 K2]. rewrite Hv. cbn [fst snd] in *. split; [|exact Hf].
+    split; cbn [fst snd oks fails add_fail].
+    + rewrite app_assoc. apply NoDup_snoc; auto.
+    + intros id Hi. rewrite app_assoc in Hi. apply in_app_or in Hi. destruct Hi as [Hi|[<-|[]]]; [right; auto|left; reflexivity].
+  - intros r acc stk n0 o0 Hns E En Hf. cbn [fst] in Hf. congruence.
+  - intros r acc stk n0 o0 Hns E En Hf K. split; [exact K|exact Hf].
+  - intros r acc stk n0 o0 r' h rv Hns E Hf [K1 K2]. cbn [fst snd] in *.
+    apply try_install_effect in E. destruct E as [Hn He]. destruct (inst_eff_le _ _ _ _ Hn He) as (_ & _ & Hfw).
+    split; [|cbn [nofwd set_pend]; congruence].
+    split; cbn [fst snd oks fails add_rev add_hev add_ok].
+    + apply NoDup_mid; auto.
+    + intros id Hi. apply in_app_or in Hi. destruct Hi as [Hi|Hi].
+      * apply in_app_or in Hi. destruct Hi as [Hi|[<-|[]]]; [right; apply K2; apply in_or_app; auto|left; reflexivity].
+      * right. apply K2. apply in_or_app. auto.
+Qed.
+
+Lemma add_entry_results_core v ord r n o :
+  fixF5 v = true -> (forall l, Permutation (ord l) l) -> PWF r ->
+  NoDup (oks (snd (add_entry v ord r n o)) ++ fails (snd (add_entry v ord r n o)))
+  /\ forall id, In id (oks (snd (add_entry v ord r n o)) ++ fails (snd (add_entry v ord r n o))) ->
+       (id = op_id o \/ In id (map fst (pend r))) /\ ~ In id (map fst (pend (fst (add_entry v ord r n o)))).
+Proof.
+  intros Hv Hord [HPK HNF].
+  destruct (add_entry_cases v ord r n o) as [E|(_ & _ & _ & stk & E)].
+  { rewrite E. cbn. split; [constructor|intros id []]. }
+  destruct (nofwd r) eqn:Hf.
+  - (* nothing is held: a single answer *)
+    pose proof (HNF Hf) as Hp. rewrite Hp in E. cbn [length aei existsb] in E.
+    destruct (try_install v r n o) as [| |r1 h rv] eqn:Et.
+    + rewrite Hv, Hp in E. pose proof (f_equal (fun x => fst (fst x)) E) as E1; pose proof (f_equal (fun x => snd (fst x)) E) as E2;
+      cbn [fst snd] in E1, E2; rewrite <- E1, <- E2; cbn.
+      split; [constructor; [intros []|constructor]|]. intros id [<-|[]]. split; [auto|intros []].
+    + rewrite Hf in E. pose proof (f_equal (fun x => fst (fst x)) E) as E1; pose proof (f_equal (fun x => snd (fst x)) E) as E2;
+      cbn [fst snd] in E1, E2; rewrite <- E1, <- E2; cbn. rewrite Hp.
+      split; [constructor; [intros []|constructor]|]. intros id [<-|[]]. split; [auto|intros []].
+    + pose proof Et as Et'. apply try_install_effect in Et'. destruct Et' as [Hn He].
+      destruct (inst_eff_le _ _ _ _ Hn He) as (_ & Hp1 & _). rewrite Hp1, Hp in E.
+      cbn [pend set_pend] in E. change (@ndel (ni * rop) (op_id o) []) with (@nil (N * (ni * rop))) in E.
+      rewrite (Permutation_nil (Permutation_sym (Hord []))) in E. cbn [fold_left] in E.
+      pose proof (f_equal (fun x => fst (fst x)) E) as E1; pose proof (f_equal (fun x => snd (fst x)) E) as E2;
+      cbn [fst snd] in E1, E2; rewrite <- E1, <- E2; cbn.
+      split; [constructor; [intros []|constructor]|]. intros id [<-|[]]. split; [auto|intros []].
+  - pose (U := op_id o :: map fst (pend r)).
+    assert (HS : SI U r []).
+    { split; [exact HPK|]. split; [exact HNF|]. split; [constructor|]. split; [intros x []|].
+      intros id x Hi. split; [|intros []]. right. change id with (fst (id, x)). apply in_map. exact Hi. }
+    assert (K0 : Kst (r, out0, [])) by (split; [constructor|intros id []]).
+    destruct (aei_K v ord Hv (S (length (pend r))) (r, out0, []) n o Hf K0) as [[K1 K2] _].
+    rewrite E in K1, K2. cbn [fst snd] in K1, K2.
+    apply (aei_complete (fun _ _ _ => True) (fun _ _ _ _ _ _ => I) (fun _ _ _ _ => I) v ord Hv Hord U) in E; auto;
+      [|left; reflexivity|lia|subst U; cbn [length]; rewrite map_length; lia].
+    destruct E as ((_ & _ & _ & HI & HB) & _).
+    split; [exact K1|]. intros id Hi. apply K2 in Hi. split.
+    + apply HI in Hi. destruct Hi as [<-|Hi]; auto.
+    + intros Hk. apply in_map_iff in Hk. destruct Hk as ([id' x] & Ei & Hk). cbn [fst] in Ei. subst id'.
+      apply HB in Hk. tauto.
+Qed.
+
+Theorem add_entry_results_disjoint ord r n o : (forall l, Permutation (ord l) l) -> PWF r ->
+  NoDup (oks (snd (add_entry v_fixed ord r n o))) /\ NoDup (fails (snd (add_entry v_fixed ord r n o)))
+  /\ forall id, In id (oks (snd (add_entry v_fixed ord r n o))) -> ~ In id (fails (snd (add_entry v_fixed ord r n o))).
+Proof.
+  intros Hord HP. destruct (add_entry_results_core v_fixed ord r n o eq_refl Hord HP) as [H _].
+  split; [eapply NoDup_app_l; eauto|]. split; [eapply NoDup_app_r; eauto|].
+  intros id. apply NoDup_app_disjoint. exact H.
+Qed.
+
+Theorem add_entry_results_ids ord r n o : (forall l, Permutation (ord l) l) -> PWF r ->
+  forall id, In id (oks (snd (add_entry v_fixed ord r n o)) ++ fails (snd (add_entry v_fixed ord r n o))) ->
+    (id = op_id o \/ In id (map fst (pend r)))
+    /\ ~ In id (map fst (pend (fst (add_entry v_fixed ord r n o)))).
+Proof. intros Hord HP. apply (add_entry_results_core v_fixed ord r n o eq_refl Hord HP). Qed.
+
+(* the pinned tree: an operation answered FAILED by an inner loop is still in the snapshot an outer
+   loop iterates over, is retried there and answered OK as well, in the same AddEntry; repaired: the
+   failed id is recorded on the per-call stack and the operation is answered once *)
+Lemma failed_then_acked_tree_witness :
+  map fst (pend fa_state) = [8; 4; 6]
+  /\ oks (snd (add_entry v_tree idord fa_state 1 om_op)) = [7; 8; 6; 4]
+  /\ fails (snd (add_entry v_tree idord fa_state 1 om_op)) = [4].
+Proof. vm_compute. repeat split. Qed.
+Lemma failed_once_fixed_example :
+  oks (snd (add_entry v_fixed idord fa_state 1 om_op)) = [7; 8; 6]
+  /\ fails (snd (add_entry v_fixed idord fa_state 1 om_op)) = [4]
+  /\ pend (fst (add_entry v_fixed idord fa_state 1 om_op)) = [].
+Proof. vm_compute. repeat split. Qed.
+Theorem failed_then_acked_tree_refuted :
+  exists ord r n o id, (forall l, Permutation (ord l) l)
+    /\ In id (oks (snd (add_entry v_tree ord r n o))) /\ In id (fails (snd (add_entry v_tree ord r n o))).
+Proof.
+  exists idord, fa_state, 1, om_op, 4. split; [exact idord_perm|].
+  destruct failed_then_acked_tree_witness as (_ & -> & ->). cbn. tauto.
 Qed.
